@@ -41,7 +41,8 @@ def run_case(case, judge, decisions=("resume", "abort", "stop", "halt"), first_d
         for _ in range(case["pairs"]):
             i = rng.randrange(len(coords))
             c1 = coords[i]
-            c2 = coords[min(len(coords) - 1, i + rng.randint(1, 25))]
+            # (same_turn: both requests are made between the same two loop handles, i.e. in one event-loop turn)
+            c2 = c1 if case.get("same_turn") else coords[min(len(coords) - 1, i + rng.randint(1, 25))]
             ex = execute(dict(base, inj=[[c1[0], c1[1], kind, params], [c2[0], c2[1], case["kind2"], p2]],
                               decisions=["resume", "resume", "resume", "resume"]))
             out += judge(ex, ref, case)
